@@ -231,8 +231,15 @@ def judge(hdr, ops, tree, config, rejections, stats):
             ts = O.parse_list(op.args[0]) if op.args else []
             src = 1 - op.inst
             if op.ret == '1':
-                if P != ts:
+                # previousTransitions holds COMPO_COUNT x SUBSTITUTION_LIMIT entries: a longer (valid) history is kept
+                # up to that capacity, in order
+                cfg_ = hdr.get('config', {})
+                cap = int(cfg_.get('queuecap', '0') or 0) * int(cfg_.get('limit', '0') or 0)
+                want = ts[:cap] if cap and len(ts) > cap else ts
+                if P != want:
                     reject('replay-history', 'replayTransitions(%s) returned true but previousTransitions is %s' % (ts, P), idx)
+                if cap and len(ts) > cap:
+                    stats.inc('c09_replays_beyond_capacity')
                 if any(e[0] == 'cb' and e[2] in GUARDS for e in op.events):
                     reject('replay-guards', 'replayTransitions consulted a guard', idx)
             elif before is not None:
